@@ -138,6 +138,19 @@ class Env:
         elif not cond:
             raise Abort()
 
+    def hint_sumsq(self, cells):
+        """sign certificate candidate: the sum of squares of `cells` (non-negative by construction)"""
+        if self.sym:
+            s = 0
+            for v in np.asarray(cells, dtype=object).ravel().tolist():
+                s = s + v * v
+            if isinstance(s, SymReal) and s.d is None:
+                self.path.nonneg_hints.append(s.n)
+
+    def hint_nonneg(self, x):
+        if self.sym and isinstance(x, SymReal) and x.d is None:
+            self.path.nonneg_hints.append(x.n)
+
     def cases(self, name, n):
         """an enumerated choice 0..n-1 decided by the explorer (a fork, not a bound)"""
         return int(self.int(name, 0, n - 1))
